@@ -237,7 +237,9 @@ func (s *IPSet) ListEntries(name string) ([]string, error) {
 func (s *IPSet) ListSets() ([]string, error) { return s.names(), nil }
 func (s *IPSet) GetVersion() (string, error) { return "7.17", nil }
 
-func (s *IPSet) SaveAllSets() ([]byte, error) { return []byte(s.Dump(func(string) bool { return true })), nil }
+func (s *IPSet) SaveAllSets() ([]byte, error) {
+	return []byte(s.Dump(func(string) bool { return true })), nil
+}
 
 // Dump renders the selected sets canonically (sorted names and members).
 func (s *IPSet) Dump(keep func(name string) bool) string {
